@@ -39,7 +39,8 @@ theorem cm_keepttl : casematch [75, 69, 69, 80, 84, 84, 76] "keepttl" = true := 
 
 /-- TTL answers `ttlAnswer now 1 (live entry)` and PTTL `ttlAnswer now 1000 (live entry)`, where
 `ttlAnswer now scale` is `-2` without live entry, `-1` without deadline, and otherwise
-`roundHalfEven ((deadline - now) * scale) TICKS` (Python's `int(round(..))`: nearest, ties to even); nothing changes. -/
+`roundHalfUp ((deadline - now) * scale) TICKS` = `floor(x + 1/2)`: nearest, ties UP — Redis' `(ttl_ms + 500) / 1000`;
+nothing changes. -/
 theorem ttl_reply (ctx : Ctx) (k : Bytes) (db : Db) (nd : NodupKeys db.dict) :
     (run "ttl" ctx [k] db).reply = ttlAnswer ctx.time 1 (db.live k) ∧
     Db.purge (run "ttl" ctx [k] db).db = Db.purge db := ttl_spec ctx k nd
@@ -55,8 +56,8 @@ theorem ttl_cases (ctx : Ctx) (k : Bytes) (db : Db) (nd : NodupKeys db.dict) (hc
     ((run "ttl" ctx [k] db).reply = .int (-2) ↔ db.live k = none) ∧
     ((run "ttl" ctx [k] db).reply = .int (-1) ↔ ∃ it, db.live k = some it ∧ it.expireat = none) ∧
     (∀ it e, db.live k = some it → it.expireat = some e →
-      (run "ttl" ctx [k] db).reply = .int (roundHalfEven ((e - ctx.time) * 1) TICKS) ∧
-      0 ≤ roundHalfEven ((e - ctx.time) * 1) TICKS) := by
+      (run "ttl" ctx [k] db).reply = .int (roundHalfUp ((e - ctx.time) * 1) TICKS) ∧
+      0 ≤ roundHalfUp ((e - ctx.time) * 1) TICKS) := by
   rw [(ttl_spec ctx k nd).1]
   exact ttlAnswer_cases k ctx.time 1 hctx (by decide) hne
 
@@ -65,10 +66,24 @@ theorem pttl_cases (ctx : Ctx) (k : Bytes) (db : Db) (nd : NodupKeys db.dict) (h
     ((run "pttl" ctx [k] db).reply = .int (-2) ↔ db.live k = none) ∧
     ((run "pttl" ctx [k] db).reply = .int (-1) ↔ ∃ it, db.live k = some it ∧ it.expireat = none) ∧
     (∀ it e, db.live k = some it → it.expireat = some e →
-      (run "pttl" ctx [k] db).reply = .int (roundHalfEven ((e - ctx.time) * 1000) TICKS) ∧
-      0 ≤ roundHalfEven ((e - ctx.time) * 1000) TICKS) := by
+      (run "pttl" ctx [k] db).reply = .int (roundHalfUp ((e - ctx.time) * 1000) TICKS) ∧
+      0 ≤ roundHalfUp ((e - ctx.time) * 1000) TICKS) := by
   rw [(pttl_spec ctx k nd).1]
   exact ttlAnswer_cases k ctx.time 1000 hctx (by decide) hne
+
+/-- the rounding: for `den > 0`, `roundHalfUp num den = q` iff `q ≤ num/den + 1/2 < q + 1`, written in integers -/
+theorem rounding_rule (num den : Int) (hd : 0 < den) (q : Int) :
+    roundHalfUp num den = q ↔ 2 * den * q ≤ 2 * num + den ∧ 2 * num + den < 2 * den * (q + 1) :=
+  roundHalfUp_iff hd q
+
+/-- 2.5 s gives 3 and 2.4999999 s gives 2 (ticks of 100 ns); half-to-even would have given 2 for 2.5 s.
+On the commands: clock 1 s, deadlines 3.5 s and 3.4999999 s. -/
+example : roundHalfUp (25000000 * 1) TICKS = 3 ∧ roundHalfUp (24999999 * 1) TICKS = 2 ∧
+    roundHalfEven (25000000 * 1) TICKS = 2 ∧
+    (run "ttl" ctx0 [[97]] ⟨[([97], ⟨.str [1], some 35000000⟩)], 10000000⟩).reply = .int 3 ∧
+    (run "ttl" ctx0 [[97]] ⟨[([97], ⟨.str [1], some 34999999⟩)], 10000000⟩).reply = .int 2 ∧
+    (run "pttl" ctx0 [[97]] ⟨[([97], ⟨.str [1], some 35000000⟩)], 10000000⟩).reply = .int 2500 :=
+  ⟨by decide, by decide, by decide, rfl, rfl, rfl⟩
 
 example : (run "ttl" ctx0 [[97]] db0).reply = .int 4 ∧ (run "pttl" ctx0 [[97]] db0).reply = .int 4000 ∧
     (run "ttl" ctx0 [[98]] db0).reply = .int (-1) ∧ (run "ttl" ctx0 [[99]] db0).reply = .int (-2) :=
